@@ -314,7 +314,7 @@ class _AWriter:
         self.io.rec.label("srvWrite", len(data))
 
     async def drain(self) -> None:
-        while self.io._paused:
+        while self.io._paused and not self.io._fail:
             self.io._resume = asyncio.Event()
             await self.io._resume.wait()
         if self.io._fail:
@@ -388,10 +388,14 @@ class AsyncioIO(ClientIO):
             self.reader.eof = True
             self.reader.q.put_nowait(ConnectionResetError())
         self._fail = True
+        if self._resume is not None:
+            self._resume.set()          # connection_lost wakes a writer that was waiting for the transport to resume
         await self.settle()
 
     def fail_writes(self) -> None:
         self._fail = True
+        if self._resume is not None:
+            self._resume.set()
 
     def pause_writes(self) -> None:
         self._paused = True
@@ -487,6 +491,14 @@ def run_trio(cfg: dict, alpn: Optional[str], client: Callable[[ClientIO], Awaita
     res: Dict[str, Any] = {}
 
     class TrioIO(ClientIO):
+        def _put(self, item: Any) -> None:
+            """hand something to the server's next read; bytes sent to a transport the server has already closed are lost
+            (as on asyncio, where they sit unread in a queue)"""
+            try:
+                self.send_ch.send_nowait(item)
+            except (trio.BrokenResourceError, trio.ClosedResourceError):
+                rec.label("clientSendLost")
+
         def __init__(self) -> None:
             self.out = bytearray()
             self.writes: List[list] = []
@@ -500,7 +512,7 @@ def run_trio(cfg: dict, alpn: Optional[str], client: Callable[[ClientIO], Awaita
         # ---- client side ----
         async def send(self, data: bytes) -> None:
             if data and not self.eof_sent:
-                self.send_ch.send_nowait(bytes(data))
+                self._put(bytes(data))
             await self.settle()
 
         async def sleep(self, seconds: float) -> None:
@@ -513,26 +525,30 @@ def run_trio(cfg: dict, alpn: Optional[str], client: Callable[[ClientIO], Awaita
         async def eof(self) -> None:
             if not self.eof_sent:
                 self.eof_sent = True
-                self.send_ch.send_nowait(b"")
+                self._put(b"")
             await self.settle()
 
         async def send_eof(self, data: bytes) -> None:
             if not self.eof_sent:
                 if data:
-                    self.send_ch.send_nowait(bytes(data))
+                    self._put(bytes(data))
                 self.eof_sent = True
-                self.send_ch.send_nowait(b"")
+                self._put(b"")
             await self.settle()
 
         async def reset(self) -> None:
             if not self.eof_sent:
                 self.eof_sent = True
-                self.send_ch.send_nowait(trio.BrokenResourceError())
+                self._put(trio.BrokenResourceError())
             self._fail = True
+            self._resume.set()          # a broken stream wakes a writer blocked by back-pressure
+            self._resume = trio.Event()
             await self.settle()
 
         def fail_writes(self) -> None:
             self._fail = True
+            self._resume.set()
+            self._resume = trio.Event()
 
         def pause_writes(self) -> None:
             self._paused = True
@@ -563,8 +579,11 @@ def run_trio(cfg: dict, alpn: Optional[str], client: Callable[[ClientIO], Awaita
             io.out += data
             io.writes.append([rec.t(), len(data)])
             rec.label("srvWrite", len(data))
-            while io._paused:
+            while io._paused and not io._fail:
                 await io._resume.wait()
+            if io._fail:
+                rec.label("srvWriteFail", 0)
+                raise trio.BrokenResourceError()
 
         async def receive_some(self, n: int) -> bytes:
             if self.closed:
